@@ -6,7 +6,10 @@ wt=$1; pid=$2; out=$3
 mkdir -p $out
 cd $wt || exit 2
 tgt=/tmp/mut-target-$pid
-[ -d $tgt ] || cp -r /tmp/mut-target $tgt
+# reuse the target directory the seeding agent built in, when there is one
+PID=$(echo $pid | tr a-z A-Z)
+[ -d /tmp/seed-$PID-target ] && tgt=/tmp/seed-$PID-target
+[ -d $tgt ] || { [ -d /tmp/mut-target ] && cp -r /tmp/mut-target $tgt; }
 export CARGO_TARGET_DIR=$tgt CARGO_NET_OFFLINE=true
 git diff -- src > $out/patch.diff
 cp tests/seeded_$pid.rs $out/demo_test.rs 2>/dev/null
